@@ -6,6 +6,7 @@ repeated faces and unreferenced vertices included.
 -/
 import TrimeshVerif.Proofs.Topology
 import TrimeshVerif.Proofs.AngleDefect
+import TrimeshVerif.Generated.C05Table
 namespace TV.C05
 open TV TV.Grouping TV.Topology
 
@@ -75,6 +76,26 @@ theorem C05_neighbors (fs : List Face) (nV v w : Nat) (hv : v < nV) :
     (∃ l, (vertexNeighbors fs nV)[v]? = some l ∧ l.Nodup ∧
       (w ∈ l ↔ sortEdge (v, w) ∈ edgesSorted fs)) := by
   exact vertexNeighbors_spec fs nV v w hv
+
+/-- column `k` of a face row -/
+def corner (f : Face) : Nat → Nat
+  | 0 => f.1
+  | 1 => f.2.1
+  | _ => f.2.2
+
+/-- `.reshape((-1, 2))` -/
+def pairs : List Nat → List Edge
+  | a :: b :: t => (a, b) :: pairs t
+  | _ => []
+
+/-- **(G) the edge order of the source is the model's**: the face columns `geometry.faces_to_edges` lists (read from
+    the current source by `ast`), reshaped to pairs, give for every face array exactly the model's `edges` - per face
+    `(a,b), (b,c), (c,a)` in face order - and the face index of every edge is still the face number tiled three
+    times, the `edgesFace` of the model -/
+theorem C05_edges_of_source (fs : List Face) :
+    fs.flatMap (fun f => pairs (TV.Generated.C05.edgeColumns.map (corner f))) = edges fs ∧
+    TV.Generated.C05.faceIndexExpr = "np.tile(np.arange(len(faces)), (3, 1)).T.reshape(-1)" :=
+  ⟨rfl, by decide⟩
 
 /-- **unshared vertex = the corner off the shared edge, by counting**: the reported vertex is a corner of the face
     that is neither end of the edge, and it is reported exactly when one corner (counted with multiplicity)
